@@ -14,3 +14,6 @@ pub use {
     adam::Adam as VerifAdam,
     dual_avg::{DualAverage as VerifDualAverage, DualAverageOptions as VerifDualAverageOptions},
 };
+
+#[cfg(nuts_rs_verif)]
+pub use {adapt::Strategy as VerifStrategy, dual_avg::AcceptanceRateCollector as VerifAcceptanceRateCollector};
